@@ -114,7 +114,7 @@ func cmdCheck(args []string) int {
 	}
 	var mine []*Finding
 	for _, f := range findings {
-		if f.Kind == "finding" {
+		if f.Kind == "finding" && f.Property == id {
 			mine = append(mine, f)
 		}
 	}
